@@ -2,6 +2,9 @@ package ext
 
 import (
 	"encoding/json"
+	"strings"
+
+	"github.com/alligator/jqawk/cli"
 
 	lang "github.com/alligator/jqawk/src"
 	"github.com/alligator/jqawk/zzverif/vh"
@@ -64,7 +67,7 @@ func c04Leaf(name string, sym bool) any {
 		return []float64{0, -1.5, 1e300}[vh.Choose(name+"n", 3)]
 	case 1:
 		if sym {
-			return vh.Bytes(name+"s", 2)
+			return vh.Bytes(name+"s", 2*vh.Choose(name+"sl", 2)) // empty or two bytes
 		}
 		// strings whose JSON text needs care: quotes, backslashes, control characters, non-ASCII,
 		// HTML-sensitive characters, and text that merely LOOKS like an escape sequence
@@ -206,4 +209,38 @@ func VHC04Inexpressible() {
 	vh.Assert(legal(err, "EvalProgram") == OK, "C04: building the cycle succeeds")
 	_, jerr := ev.GetRootJson()
 	vh.Assert(jerr != nil, "C04: -o on a document that contains itself is an error, not endless recursion")
+}
+
+// VHC04Cli: the JSON that the command line's -o option writes - to standard output or
+// into a file that may exist already, shorter or longer than the new text - is valid JSON
+// equal to the document (the real cli.Run on the OS model; natively on real files).
+func VHC04Cli() {
+	doc := c04Tree("t", 1, false)
+	p := &vh.Proc{Texts: map[string]string{}, Data: map[string]*vh.DocStream{"in.json": {Items: []any{doc}}}}
+	toFile := vh.Choose("tofile", 2) == 1
+	args := []string{"-o", "-", "{ x = 1 }", "in.json"}
+	if toFile {
+		args[1] = "out.json"
+		switch vh.Choose("existing", 4) {
+		case 1:
+			p.Texts["out.json"] = "{}"
+		case 2:
+			p.Texts["out.json"] = "[\n" + strings.Repeat("  \"old old old old\",\n", 40) + "  0\n]\n"
+		case 3:
+			args = []string{"-o", "in2.json", "{ x = 1 }", "in.json"} // next to the input, not existing
+		}
+	}
+	p.Args = args
+	res := vh.RunCLI(cli.Run, p)
+	vh.Reach("front end wrote JSON")
+	vh.Assert(res.Exit == 0 && res.Stderr == "", "C04: the run succeeds")
+	text := res.Stdout
+	if toFile {
+		vh.Assert(len(res.Written) == 1, "C04: exactly the output file is written")
+		text = res.Written[args[1]]
+	}
+	var back any
+	perr := json.Unmarshal([]byte(text), &back)
+	vh.Assert(perr == nil, "C04: what -o writes is valid JSON (nothing of an older, longer file survives)")
+	vh.Assert(jsonEqual(back, doc), "C04: what -o writes parses to a value equal to the input")
 }
